@@ -54,7 +54,7 @@ PENDING = "check under construction in this build phase (model/theorems planned 
 
 def main():
     m = {"version": 1,
-         "setup_cmd": "/venv/bin/python gen/py2lean.py && cd lean && lake build",
+         "setup_cmd": "/venv/bin/python gen/py2lean.py && cd lean && lake build Model drv Proofs && (lake build Gen Props || true)",
          "hooks": {"guard": "SKEPTICOIN_VERIF",
                    "enable": "no hooks are compiled in; the harness replaces module attributes at run time (DESIGN.md section 6)",
                    "baseline_off_cmd": "cd /repo && /venv/bin/python -m pytest -ra -q -p no:cacheprovider --timeout=900 --continue-on-collection-errors",
